@@ -59,6 +59,17 @@ func VerifyFunc(p *Program, fc *FuncContract, prop string) (u *Unit) {
 	}()
 	cx := x.newCtx(fi, fc)
 	x.cx = cx
+	if fc.Flags["pure"] || fc.Flags["readonly"] {
+		o := w.Oblige(x.oblName("frame:readonly", ""), "frame", True, True)
+		o.Preset = true
+		o.Solver = "frame-analysis"
+		if p.IsReadonly(fi) {
+			o.Result = "unsat"
+		} else {
+			o.Result = "sat"
+			o.Output = "the body (or a callee) may write through the receiver or a pointer/map parameter"
+		}
+	}
 	// loops named in the contract must exist
 	for ord := range fc.Loops {
 		if ord >= len(cx.loopOrd) {
